@@ -22,7 +22,7 @@ CHECK_RE = re.compile(
     re.M,
 )
 PLAYBACK_RE = re.compile(
-    r"/// Check for `([^`]*)`: \"([^\n]*)\"\n\s*\n?#\[test\]\nfn (\w+)\(\) \{\n\s*let concrete_vals: Vec<Vec<u8>> = vec!\[\n(.*?)\n\s*\];",
+    r"/// Check for `([^`]*)`: \"([^\n]*)\"\n(?:///[^\n]*\n)*\s*\n?#\[test\]\nfn (\w+)\(\) \{\n\s*let concrete_vals: Vec<Vec<u8>> = vec!\[\n(.*?)\n\s*\];",
     re.S,
 )
 VEC_RE = re.compile(r"^\s*vec!\[([0-9, ]*)\],?\s*$")
@@ -141,7 +141,7 @@ def run_one(prop_id, name, worker, features, timeout_s, mem_gb):
     full = f"{prop_id.lower()}::kani_proofs::{name}"
     cmd = [
         "cargo", "kani", "--lib", "--target-dir", tdir, "--exact", "--harness", full,
-        "-Z", "concrete-playback", "--concrete-playback=print",
+        "-Z", "concrete-playback", "--concrete-playback=print", "-Z", "stubbing",
     ]
     if features:
         cmd += ["--features", ",".join(features)]
